@@ -192,11 +192,17 @@ func c07RunHistory(r *fw.Rand, seq rtp.Sequencer, g, opsEach int, rollPct int, y
 			lr := fw.NewRand(seeds[k], "c07", "client", k)
 			ops := make([]seqOp, 0, opsEach)
 			start.Wait()
+			lastWasNext := false
 			for n := 0; n < opsEach; n++ {
 				if lr.Intn(100) < yieldPct {
 					runtime.Gosched()
 				}
 				op := seqOp{client: k, next: lr.Intn(100) >= rollPct}
+				if lastWasNext && lr.Intn(100) < 40 {
+					// read the rollover count right after drawing a value: the pair (count, value) must never go backwards
+					op.next = false
+				}
+				lastWasNext = op.next
 				op.call = atomic.AddInt64(&clock, 1)
 				if op.next {
 					op.out = uint64(seq.NextSequenceNumber())
@@ -400,7 +406,7 @@ func c07Short(c *fw.Ctx, i int) {
 	defer runtime.GOMAXPROCS(old)
 	total := g * opsEach
 	// place the wrap inside the history
-	k := r.Range(1, total*8/10)
+	k := r.Range(total/6, total*7/10) // the wrap falls where all clients are running, not in the ramp-up
 	start := uint16(65536 - k)
 	if r.Chance(1, 10) {
 		start = uint16(r.Intn(65536))
